@@ -69,12 +69,14 @@ def greedyNaN : Nat → List Nat → List Nat
   | k + 1, nb => greedyNaN k (incrAt 0 nb)
 
 /-- `nhaploblk_chrom(nhaploblk, genpos, chrgrp_stix, chrgrp_spix)`; `gl` is the vector of genetic
-    lengths.  `ValueError` when fewer blocks than chromosomes are requested. -/
+    lengths.  `ValueError` when fewer blocks than chromosomes are requested.  The test "total length is
+    zero" is written with `≤` twice so that the same definition runs at `Float` (binary64, bit for bit
+    what numpy computes) as well as at `Rat`. -/
 def nhaploblkChromOfLen (nhaploblk : Nat) (gl : List α) : Except String (List Nat) :=
   let nchr := gl.length
   if nhaploblk < nchr then .error "value" else
   let ones := List.replicate nchr 1
-  if Np.sum gl = 0 then .ok (greedyNaN (nhaploblk - nchr) ones)
+  if Np.sum gl ≤ 0 ∧ 0 ≤ Np.sum gl then .ok (greedyNaN (nhaploblk - nchr) ones)
   else .ok (greedy (ideal nhaploblk gl) (nhaploblk - nchr) ones)
 
 def nhaploblkChrom (nhaploblk : Nat) (chroms : List (List α)) : Except String (List Nat) :=
@@ -86,6 +88,14 @@ def nhaploblkChrom (nhaploblk : Nat) (chroms : List (List α)) : Except String (
 def linspace (a b : α) (n : Nat) : List α :=
   if n = 0 then [a] else
   (List.range n).map (fun (j : Nat) => a + (j : α) * ((b - a) / (n : α))) ++ [b]
+
+/-- `numpy.linspace(a, b, n+1)` with every arithmetic operation followed by the rounding `rnd`:
+    `delta = rnd(b - a)`, `step = rnd(delta / n)`, `y[j] = rnd(rnd(j * step) + a)`, `y[n] = b`.
+    (`rnd = id` is `linspace`; numpy's extra branch for `step == 0` computes the same values when
+    `delta = 0` and otherwise concerns underflowing steps, outside the contract.) -/
+def linspaceR (rnd : α → α) (a b : α) (n : Nat) : List α :=
+  if n = 0 then [a] else
+  (List.range n).map (fun (j : Nat) => rnd (rnd ((j : α) * rnd (rnd (b - a) / (n : α))) + a)) ++ [b]
 
 /-- `haplobin[stix:spix][(chrmap >= lo) & (chrmap <= hi)] = k` -/
 def paint (lo hi : α) (k : Nat) (pos : List α) (lab : List (Option Nat)) : List (Option Nat) :=
@@ -119,6 +129,13 @@ def hbounds (nblk : List Nat) (chroms : List (List α)) : List (List α) :=
 /-- `haplobin(nhaploblk_chrom, genpos, chrgrp_stix, chrgrp_spix)` -/
 def haplobin (nblk : List Nat) (chroms : List (List α)) : List (Option Nat) :=
   haplobinHB (hbounds nblk chroms) chroms 0
+
+/-- the same with rounded arithmetic in `linspace` (the comparisons `>=`, `<=` are exact in IEEE) -/
+def hboundsR (rnd : α → α) (nblk : List Nat) (chroms : List (List α)) : List (List α) :=
+  List.zipWith (fun n c => linspaceR rnd (c.headD 0) (c.getLastD 0) n) nblk chroms
+
+def haplobinR (rnd : α → α) (nblk : List Nat) (chroms : List (List α)) : List (Option Nat) :=
+  haplobinHB (hboundsR rnd nblk chroms) chroms 0
 
 end scalar
 
@@ -332,7 +349,7 @@ def nhaploblkChromFixed (nhaploblk : Nat) (chroms : List (List α)) : Except Str
   let nchr := gl.length
   if nhaploblk < nchr then .error "value" else
   let ones := List.replicate nchr 1
-  if Np.sum gl = 0 then .ok (greedyCapNaN lens (nhaploblk - nchr) ones)
+  if Np.sum gl ≤ 0 ∧ 0 ≤ Np.sum gl then .ok (greedyCapNaN lens (nhaploblk - nchr) ones)
   else .ok (greedyCap (ideal nhaploblk gl) lens (nhaploblk - nchr) ones)
 
 /-- `len(numpy.unique(x))` -/
